@@ -197,6 +197,32 @@ class RawV(Model):
         self.shape = shape
         self.contiguous = contiguous       # False: a strided view (a[::2], x[:, 0]) - numpy.require / ascontiguousarray COPY it
 
+    @property
+    def flags(self):
+        from .core_models import NdFlags
+        return NdFlags(self)
+
+    @property
+    def size(self):
+        n = 1
+        for d in self.shape:
+            if not isinstance(d, int):
+                raise Unsupported("size of an array of shape %r" % (self.shape,))
+            n *= d
+        return n
+
+    @property
+    def ndim(self):
+        return len(self.shape)
+
+    def item(self, *a):
+        """ndarray.item(): the ONE element as a python scalar - the shape is gone"""
+        if a:
+            raise Unsupported("ndarray.item%r" % (a,))
+        if self.size != 1:
+            raise Raised("ValueError", None, "can only convert an array of size 1 to a Python scalar")
+        return RawV(self.r, self.dtype, ())
+
     def _v(self, o):
         if isinstance(o, RawV):
             return o.r
@@ -740,6 +766,23 @@ def check_array_stack(run, tree, only=None):
             except (Raised, ProgramRaised) as e:
                 ok, detail = False, "raises %s" % e
             run.ob(construct, ok, fi.where(), detail, "%s compares raw numbers in different units, or the result carries a unit" % label)
+        except ERR as e:
+            run.unresolved(construct, fi.where(), "cannot fold: %s" % e)
+    # one-element operands keep their shape through the conversion: () < (1,) is (1,), (3,) < (1, 1) is (1, 3)
+    for label, sa_, sb_, want_shape in (("a [m, 0-d] < b [cm, shape (1,)]", (), (1,), (1,)), ("a [m, shape (3,)] < b [cm, shape (1, 1)]", (3,), (1, 1), (1, 3)),
+                                        ("a [m, shape (1,)] < b [cm, 0-d]", (1,), (), (1,))):
+        construct = "core/array.py::Array[%s]" % label
+        try:
+            hk = stack_hooks(tree)
+            a, b = arr(tree, hk, "A", "m", shape=sa_), arr(tree, hk, "B", "cm", shape=sb_)
+            try:
+                r = binop(tree, hk, a, "__lt__", b)
+                v = r._attrs.get("_array")
+                ok = isinstance(v, RawV) and isinstance(v.r, tuple) and v.r[0] == "lt" and v.r[1] * km == A * km - B * kcm and tuple(v.shape) == want_shape
+                detail = "compares %r lt 0, result shape %r (required %r)" % (v.r[1] if isinstance(v, RawV) and isinstance(v.r, tuple) else v, tuple(getattr(v, "shape", ())), want_shape)
+            except (Raised, ProgramRaised) as e:
+                ok, detail = False, "raises %s" % e
+            run.ob(construct, ok, fi.where(), detail, "%s: a one-element operand in another unit loses its shape in the conversion, or is not converted" % label)
         except ERR as e:
             run.unresolved(construct, fi.where(), "cannot fold: %s" % e)
     # integer data (levels, cpu numbers) against a fractional bare number: level < 2.5 compares with 2.5
